@@ -37,10 +37,18 @@ def jobs(tier, rng):
                 out.append(dict(mols=mols, path="scf_exc", params=dict(scf_converger=[1], scf_eps=1e-8, excited_states={"n_states": 3, "method": meth}, active_state=act)))
     for mols in (["h2o"], ["nh3"], ["h2co"], ["h2o", "h2co"], ["h2co", "h2o"], ["oh-", "h2co"], ["h2co", "nh4+"]):
         out.append(dict(mols=mols, path="scf", second="rotate", params=dict(method="AM1", scf_converger=[1], scf_eps=1e-8)))
+    # a driver object that served another batch of the same padded shape before (other elements, other row order)
+    for mols, warm in ((["nh3"], ["h2co"]), (["h2co"], ["nh3"]), (["h2o", "h2co"], ["h2co", "h2o"]), (["h2co", "h2o"], ["h2o", "h2co"]), (["hf"], ["h2"]), (["oh-", "h2co"], ["h2co", "oh-"])):
+        for method in ("AM1", "PM3"):
+            out.append(dict(mols=mols, warm=warm, path="scf", params=dict(method=method, scf_converger=[1], scf_eps=1e-8)))
+    # one active state per molecule, ground and excited rows mixed, on the paths that do not use the analytical gradient
+    for acts in ([0, 2, 1], [1, 0, 0], [0, 0, 3], [2, 2, 0]):
+        for extra in (dict(scf_backward=1), dict(scf_backward=2)):      # (the analytical-gradient path refuses ground / excited mixes)
+            out.append(dict(mols=["h2co", "h2co", "h2co"], path="scf_exc", params=dict(scf_converger=[1], scf_eps=1e-8, excited_states={"n_states": 3, "method": "cis"}, active_state=acts, **extra)))
     for mols in (["h2o"], ["ch4", "h2o"], ["nh3"]):
         out.append(dict(mols=mols, path="xl", params=dict(scf_converger=[1], scf_eps=1e-9)))
     if tier == "quick":
-        must = [j for j in out if j.get("second") == "rotate"] + [j for j in out if j["path"] == "scf_exc" and j["params"]["active_state"] == 3 and j["mols"] == ["h2co"]]
+        must = [j for j in out if j.get("second") == "rotate" or j.get("warm") or isinstance(j["params"].get("active_state"), list)] + [j for j in out if j["path"] == "scf_exc" and j["params"]["active_state"] == 3 and j["mols"] == ["h2co"]]
         out = must + rng.sample([j for j in out if j not in must], 36)
     for n, j in enumerate(out):
         j["id"] = "p%04d" % n
